@@ -84,6 +84,46 @@ def gen_merge(r, n=None, corpus=None):
     return {"kind": "merge", "grid": grid, "mode": mode, "permuted": permute, "keymut": keymut, "results": results}
 
 
+def gen_filespec(r, tag):
+    return {"seed": r.randrange(2 ** 31), "n": r.randint(3, 9), "metric": r.choice(["ape", "ape", "rpe"]),
+            "rel": r.choice(["translation_part", "translation_part", "rotation_angle_deg", "full_transformation"]),
+            "align": r.random() < 0.1,
+            "est_name": r.choice([f"est{tag}", f"runs/{tag}/est.txt", f"d{tag}/traj.tum", "same/est.txt", "estimate"])}
+
+
+def spell(name, spelling):
+    return {"rel": name, "dot": "./" + name, "abs": "<ABS>/" + name, "path": name}[spelling]
+
+
+def gen_history(r, corpus=None):
+    """a sequence of steps in one process and one directory that re-uses the same file names"""
+    nn = 1 if corpus else r.randint(1, 3)
+    names = [f"r{i}.zip" for i in range(nn)]
+    current = {}
+    steps = []
+    for k in range(2 if corpus else r.randint(2, 4)):
+        if k == 0:
+            write = {str(i): gen_filespec(r, f"{i}a") for i in range(nn)}
+        else:
+            idx = r.sample(range(nn), r.randint(1, nn))
+            write = {str(i): gen_filespec(r, f"{i}{'bcde'[k - 1]}") for i in idx}
+            if r.random() < 0.15:
+                write = {}
+        current.update(write)
+        via = "run" if corpus else r.choice(["run", "run", "df", "load"])
+        merge = (not corpus) and r.random() < 0.35
+        uf = (not corpus) and r.random() < 0.3
+        spelling = "rel" if corpus else r.choice(["rel", "rel", "dot", "abs"] + (["path"] if via == "load" else []))
+        labels = [spell(n, spelling) if uf else os.path.basename(current[str(i)]["est_name"]) for i, n in enumerate(names)]
+        if via == "df" and not merge and len(set(labels)) != len(labels):
+            via = "run"            # duplicate labels are judged by evo_res itself only
+        steps.append({"write": write, "via": via, "merge": merge, "use_filenames": uf, "spelling": spelling})
+    c = {"kind": "history", "names": names, "steps": steps}
+    if corpus:
+        c["corpus"] = corpus
+    return c
+
+
 def gen_cases(ctx):
     r = ctx.rng
     th = ctx.thorough
@@ -114,6 +154,9 @@ def gen_cases(ctx):
                           "file": r.choice([f"r{i}.zip", f"sub{i}/res.zip"])})
         yield {"kind": "table", "files": files, "merge": r.random() < 0.4, "use_filenames": r.random() < 0.35,
                "ignore_title": r.random() < 0.5}
+    yield gen_history(r, corpus="C13-3")
+    for _ in range(60 if not th else 700):
+        yield gen_history(r)
 
 
 # ------------------------------------------------------------------------------------------ implementation side
@@ -257,8 +300,99 @@ def impl_table(case):
     return out
 
 
+def write_result_file(f, path):
+    from evo import main_ape, main_rpe
+    from evo.core import metrics
+    from evo.core.units import Unit
+    from evo.tools import file_interface
+    ref, est = make_traj(f["seed"], f["n"])
+    rel = metrics.PoseRelation[f["rel"]]
+    if f["metric"] == "ape":
+        res = main_ape.ape(ref, est, rel, align=f["align"], est_name=f["est_name"])
+    else:
+        res = main_rpe.rpe(ref, est, rel, 1, Unit.frames, align=f["align"], est_name=f["est_name"])
+    file_interface.save_res_file(path, res)
+
+
+def df_rows(df):
+    """(label, stats) per column of the MultiIndex frame built by load_results_as_dataframe, positionally"""
+    st = df.loc["stats"]
+    rows = []
+    for j in range(st.shape[1]):
+        col = st.iloc[:, j]
+        rows.append([str(st.columns[j]), [[str(k), float(v)] for k, v in col.items() if v == v]])
+    return rows
+
+
+def impl_history(case):
+    """all steps in this process, in one directory, re-using the file names"""
+    import pathlib
+    from evo import main_res, main_res_parser
+    from evo.core import result
+    from evo.tools import file_interface, pandas_bridge
+    d = os.path.realpath(tempfile.mkdtemp(prefix="c13h_"))
+    cwd = os.getcwd()
+    out = {"steps": []}
+    try:
+        os.chdir(d)
+        for step in case["steps"]:
+            so = {}
+            with quiet():
+                for i, f in sorted(step["write"].items()):
+                    write_result_file(f, case["names"][int(i)])
+            so["files"] = [read_zip(n) for n in case["names"]]
+            file_bytes = [open(n, "rb").read() for n in case["names"]]
+            paths = [spell(n, step["spelling"]).replace("<ABS>", d) for n in case["names"]]
+            so["paths"] = [spell(n, step["spelling"]) for n in case["names"]]
+            if os.path.exists("table.csv"):
+                os.remove("table.csv")
+            so["table"] = None
+            with quiet():
+                try:
+                    if step["via"] == "run":
+                        argv = paths + ["--save_table", "table.csv", "--no_warnings", "--ignore_title"]
+                        argv += ["--merge"] if step["merge"] else []
+                        argv += ["--use_filenames"] if step["use_filenames"] else []
+                        main_res.run(main_res_parser.parser().parse_args(argv))
+                        if os.path.exists("table.csv"):
+                            rows = list(csv.reader(open("table.csv", newline="")))
+                            header = rows[0][1:]
+                            so["table"] = [[row[0], [[h, float(c)] for h, c in zip(header, row[1:]) if c != ""]] for row in rows[1:]]
+                    elif step["via"] == "df":
+                        so["table"] = df_rows(pandas_bridge.load_results_as_dataframe(paths, step["use_filenames"], step["merge"]))
+                    else:
+                        loads = []
+                        for n, pth in zip(case["names"], paths):
+                            other = os.path.join(d, n) if step["spelling"] != "abs" else n
+                            first = pathlib.Path(pth) if step["spelling"] == "path" else pth
+                            for q in (first, other):
+                                r_ = file_interface.load_res_file(q)
+                                loads.append({"info": {k: str(v) for k, v in r_.info.items()},
+                                              "stats": [[k, float(v)] for k, v in r_.stats.items()],
+                                              "arrays": sorted([k, [float(x) for x in np.asarray(a, dtype=float).ravel()]]
+                                                               for k, a in r_.np_arrays.items())})
+                        so["loads"] = loads
+                    so["status"] = "ok"
+                except SystemExit as e:
+                    so["status"] = "exit:%s" % (e.code,)
+                except result.ResultException:
+                    so["status"] = "E_KEYS"
+                except Exception as e:
+                    so["status"] = "crash:" + type(e).__name__ + ":" + str(e)[:60]
+            so["inputs_unchanged"] = [open(n, "rb").read() for n in case["names"]] == file_bytes
+            if so["table"] is not None:      # the scratch directory differs from run to run: abstract it in file-name labels
+                so["table"] = [[lab.replace(d, "<ABS>"), st] for lab, st in so["table"]]
+            out["steps"].append(so)
+    finally:
+        os.chdir(cwd)
+        shutil.rmtree(d, ignore_errors=True)
+    return out
+
+
 def run_impl(case):
-    return impl_merge(case) if case["kind"] == "merge" else impl_table(case)
+    if case["kind"] == "merge":
+        return impl_merge(case)
+    return impl_table(case) if case["kind"] == "table" else impl_history(case)
 
 
 # ------------------------------------------------------------------------------------------ model side
@@ -293,6 +427,14 @@ def model_lines(case, impl):
     if case["kind"] == "merge":
         body = " ".join([str(len(case["results"]))] + [enc_res(d) for d in case["results"]])
         return ["C13 merge " + body, "C13 mergeold " + body]
+    if case["kind"] == "history":
+        lines = []
+        for step, so in zip(case["steps"], impl["steps"]):
+            if step["via"] == "load":
+                continue
+            body = " ".join([str(len(so["files"]))] + [hexs(pth) + " " + enc_res(dd) for pth, dd in zip(so["paths"], so["files"])])
+            lines.append("C13 table %d %d %s" % (step["use_filenames"], step["merge"], body))
+        return lines
     files = impl["files"]
     body = " ".join([str(len(files))] + [hexs(f["file"]) + " " + enc_res(d) for f, d in zip(case["files"], files)])
     return ["C13 table %d %d %s" % (case["use_filenames"], case["merge"], body)]
@@ -496,8 +638,54 @@ def judge_table(ctx, case, impl, outs):
     ctx.record(case, nf > 1)
 
 
+class StepCtx:
+    """judge one step of a history with judge_table: findings are attached to the whole history"""
+    def __init__(self, ctx, case, k):
+        self.ctx, self.case, self.k = ctx, case, k
+
+    def fail(self, _case, clause, detail, tags=None):
+        self.ctx.fail(self.case, clause, f"step {self.k}: {detail}", dict(tags or {}, history=True))
+
+    def mismatch(self, _case, what, impl=None, model=None):
+        self.ctx.mismatch(self.case, f"step {self.k}: {what}", impl, model)
+
+    def count(self, table, key, n=1):
+        if table == "branch":
+            self.ctx.count(table, "history-" + key, n)
+
+    def record(self, _case, nontrivial=True):
+        pass
+
+
+def judge_history(ctx, case, impl, outs):
+    k_line = 0
+    overwritten = False
+    for k, (step, so) in enumerate(zip(case["steps"], impl["steps"])):
+        if k > 0 and step["write"]:
+            overwritten = True
+        ctx.count("branch", "history-via-" + step["via"] + ("-after-overwrite" if overwritten else ""))
+        ctx.count("dist", "history:spelling=" + step["spelling"])
+        if step["via"] == "load":
+            want = [{"info": dd["info"], "stats": dd["stats"], "arrays": sorted(dd["arrays"])} for dd in so["files"] for _ in (0, 1)]
+            if so["status"] != "ok":
+                ctx.fail(case, "load-returns-file-content", f"step {k}: load_res_file failed: {so['status']}", {"history": True})
+            elif so["loads"] != want:
+                bad = next(i for i, (a, b) in enumerate(zip(so["loads"], want)) if a != b)
+                ctx.fail(case, "load-returns-file-content", f"step {k}: load_res_file #{bad} of {case['names'][bad // 2]} returned "
+                         f"{so['loads'][bad]['stats'][:2]}, the file holds {want[bad]['stats'][:2]}", {"history": True})
+            if not so["inputs_unchanged"]:
+                ctx.fail(case, "inputs-unmodified", f"step {k}: a result file was changed by load_res_file", {"history": True})
+            continue
+        sub = {"kind": "table", "files": [{"file": pth} for pth in so["paths"]], "merge": step["merge"],
+               "use_filenames": step["use_filenames"]}
+        judge_table(StepCtx(ctx, case, k), sub, so, [outs[k_line]])
+        k_line += 1
+    ctx.count("dist", "history:steps=%d,files=%d" % (len(case["steps"]), len(case["names"])))
+    ctx.record(case, overwritten)
+
+
 def judge(ctx, case, impl, outs):
-    (judge_merge if case["kind"] == "merge" else judge_table)(ctx, case, impl, outs)
+    {"merge": judge_merge, "table": judge_table, "history": judge_history}[case["kind"]](ctx, case, impl, outs)
 
 
 def evaluate(ctx, cases):
@@ -535,6 +723,22 @@ def shrink(case):
                     nd["arrays"][j] = [k, a[:-1]]
                     c["results"] = rs[:i] + [nd] + rs[i + 1:]
                     yield c
+    elif case["kind"] == "history":
+        st = case["steps"]
+        if len(st) > 2:
+            for i in range(len(st) - 1, 0, -1):
+                c = dict(case)
+                merged = [dict(x) for x in st]
+                if i + 1 < len(st):          # keep the writes of a dropped step
+                    merged[i + 1] = dict(merged[i + 1], write=dict(st[i]["write"], **st[i + 1]["write"]))
+                c["steps"] = merged[:i] + merged[i + 1:]
+                yield c
+        for i, x in enumerate(st):
+            for key, val in (("merge", False), ("use_filenames", False), ("spelling", "rel")):
+                if x[key] != val:
+                    c = dict(case)
+                    c["steps"] = st[:i] + [dict(x, **{key: val})] + st[i + 1:]
+                    yield c
     else:
         fs = case["files"]
         if len(fs) > 1:
@@ -558,7 +762,8 @@ def check(ctx):
     return core.finish(
         ctx, lean, rule=RULE,
         extra_trusted=["zipfile/json/numpy.load for reading result files independently of evo; csv for parsing the table"],
-        open_clauses=["'no input result is modified' is a frame condition: the model is purely functional; checked on every case by bitwise snapshots and object identity of the input arrays",
+        open_clauses=["'every tabulation reflects what the files hold now' (no state kept between calls in one process) is a frame condition of the implementation: the model is a pure function of the current file contents; checked by the history stream (overwrite a path, tabulate / load again)",
+                      "'no input result is modified' is a frame condition: the model is purely functional; checked on every case by bitwise snapshots and object identity of the input arrays",
                       "float rounding of the left-to-right sums and the final division: compared within 16*2^-53*(sum of magnitudes); dyadic grid cases with 1, 2, 4, 8 results compared exactly",
                       "pandas/CSV formatting is outside the model: the table is parsed back (repr round trip of doubles) and compared cell by cell; empty info/array columns written by pandas are ignored",
                       "arrays are modelled as flat value lists (ndarray.size, np.append flatten); 2-D arrays (alignment matrix) appear only through their flattened values"],
